@@ -899,11 +899,13 @@ func junkWord(t *rapid.T) string {
 }
 
 var xffJunk = []string{"", "", " ", "unknown", "_hidden", "1.2.3", "999.1.1.1", "1.2.3.4.5", "::g", "for=7.7.7.7", "7.7.7.7 8.8.4.4",
-	"7.7.7.7/32", "nope", "-", "2001:db9::1::2", "12345::1", "1.2.3.256", "localhost", "_7.7.7.7", "7.7.7.7_"}
+	"7.7.7.7/32", "nope", "-", "2001:db9::1::2", "12345::1", "1.2.3.256", "localhost", "_7.7.7.7", "7.7.7.7_",
+	"fe80::1%eth0%1", "8.8.8.8%a%b", "%eth0"}
 
 var fwdJunk = []string{"", "", " ", "for=", `for=""`, "for=unknown", "For=_hidden", `for="_x9"`, "for=1.2.3", "for=999.1.1.1", `for="[::g]"`,
 	"by=7.7.7.7", "7.7.7.7", "proto=https;by=7.7.7.7", "for", "=7.7.7.7", "fo=7.7.7.7", "forr=7.7.7.7", "for =7.7.7.7", "x-for=7.7.7.7", `for="7.7.7.7`, `for=7.7.7.7"`, `for="[2606:4700::1]`,
-	"by=7.7.7.7;for=unknown;proto=http", "host=example.com", `for="[2001:db9::1::2]"`, "for=1.2.3.256;by=7.7.7.7"}
+	"by=7.7.7.7;for=unknown;proto=http", "host=example.com", `for="[2001:db9::1::2]"`, "for=1.2.3.256;by=7.7.7.7",
+	`for="[fe80::1%eth0%1]"`, `for="8.8.8.8%a%b"`}
 
 var forNames = []string{"for", "for", "For", "FOR", "fOr", "foR"}
 var otherParams = [][]string{
